@@ -28,14 +28,14 @@ Section Exact.
     nth_error roots i = Some r -> files w' (mf_path r) = Some (new_manifest r (per_root roots D i r)).
   Proof.
     intros Hn. pose proof (files_after_mf w roots D None HD HM i r Hn) as E. fold M in E. fold pl in E. fold w' in E.
-    destruct (exists_at (files w) (mf_path r) || negb (is_nil (per_root roots D i r)) || root_had_changes roots pl i);
+    destruct (should_write (files w) roots D pl i r);
       [exact E|]. exfalso. apply (Hall' r); [eapply nth_error_In; eauto|exact E].
   Qed.
 
   Lemma managed_exact_after tp : In tp (managed_for_plan w' roots None) <-> mem_key tp D = true.
   Proof.
     split.
-    - intros H. apply in_managed_for_plan in H as [_ [[r [Hr Hin]]|[Hl [sn [Hs Hin]]]]].
+    - intros H. apply in_managed_for_plan in H as [_ [[r [Hr Hin]]|[Hl [sn [Hs [Hin _]]]]]].
       + apply in_root_managed in Hin as [es [e (Hread & He & Hsafe & ->)]].
         destruct (In_nth_error_ex _ _ Hr) as [i Hn].
         unfold read_manifest, chosen_manifest in Hread. rewrite (manifest_after_exact i r Hn) in Hread.
@@ -163,7 +163,7 @@ Proof.
     rewrite (files_after_mf w roots D None HD HM i r Hn).
     assert (Ex : exists_at (files w) (mf_path r) = true).
     { unfold exists_at. pose proof (inv_allm _ _ _ _ _ I r Hr) as Hx. destruct (files w (mf_path r)); [reflexivity|contradiction]. }
-    rewrite Ex. simpl. discriminate. }
+    unfold should_write. rewrite Ex. simpl. discriminate. }
   assert (HMpaths : forall t p, In (t, p) (managed_for_plan w roots None) -> exists d0, In d0 Dh /\ dpath d0 = p /\ dtarget d0 = t).
   { intros t p Hin. apply (inv_mex _ _ _ _ _ I) in Hin. apply mem_key_path. exact Hin. }
   constructor.
@@ -275,13 +275,12 @@ Qed.
 
 Lemma write_manifests_records rs : forall i roots D pl f j r,
   NoDup (map mf_path rs) -> nth_error rs j = Some r ->
-  fst (write_manifests_from i rs roots D pl f) (mf_path r) <> f (mf_path r) \/
-  (exists_at f (mf_path r) || negb (is_nil (per_root roots D (i + j) r)) || root_had_changes roots pl (i + j)) = true ->
-  (exists_at f (mf_path r) || negb (is_nil (per_root roots D (i + j) r)) || root_had_changes roots pl (i + j)) = true ->
+  should_write f roots D pl (i + j) r = true ->
   exists c, In c (snd (write_manifests_from i rs roots D pl f)) /\ a_path c = mf_path r /\ is_cu (a_op c) = true /\
             a_after c = Some (new_manifest r (per_root roots D (i + j) r)).
 Proof.
-  induction rs as [|r0 rs IH]; intros i roots D pl f j r Hnd Hn _ Hc; [destruct j; discriminate|].
+  unfold should_write.
+  induction rs as [|r0 rs IH]; intros i roots D pl f j r Hnd Hn Hc; [destruct j; discriminate|].
   inversion Hnd as [|? ? Hnotin Hnd']; subst. destruct j as [|j]; simpl in Hn.
   - inversion Hn; subst r0. rewrite Nat.add_0_r in Hc. cbn [write_manifests_from].
     change (match per_root roots D i r with [] => true | _ :: _ => false end) with (is_nil (per_root roots D i r)).
@@ -293,12 +292,13 @@ Proof.
     { intros Eq. apply Hnotin. rewrite Eq. apply in_map. eapply nth_error_In. exact Hn. }
     match goal with |- context [if ?b then _ else _] => destruct b eqn:E end.
     + assert (Hc' : (exists_at (upd f (mf_path r0) (Some (new_manifest r0 (per_root roots D i r0)))) (mf_path r)
-                     || negb (is_nil (per_root roots D (S i + j) r)) || root_had_changes roots pl (S i + j)) = true).
-      { unfold exists_at in *. rewrite upd_other by (intros X; apply Hne; auto). exact Hc. }
-      destruct (IH (S i) roots D pl _ j r Hnd' Hn (or_intror Hc') Hc') as [c (H1 & H2 & H3 & H4)].
+                     || negb (is_nil (per_root roots D (S i + j) r)) || root_had_changes roots pl (S i + j)
+                     || legacy_stale (upd f (mf_path r0) (Some (new_manifest r0 (per_root roots D i r0)))) r) = true).
+      { rewrite legacy_stale_upd by exact Hne. unfold exists_at in *. rewrite upd_other by (intros X; apply Hne; auto). exact Hc. }
+      destruct (IH (S i) roots D pl _ j r Hnd' Hn Hc') as [c (H1 & H2 & H3 & H4)].
       destruct (write_manifests_from (S i) rs roots D pl _) as [f2 l]. simpl in *.
       exists c. split; [right; exact H1|auto].
-    + destruct (IH (S i) roots D pl f j r Hnd' Hn (or_intror Hc) Hc) as [c H]. exists c. exact H.
+    + destruct (IH (S i) roots D pl f j r Hnd' Hn Hc) as [c H]. exists c. exact H.
 Qed.
 
 Lemma write_manifests_ops rs : forall i roots D pl f a,
@@ -364,11 +364,11 @@ Proof.
     assert (Hfin : files wS (mf_path r) = f2 (mf_path r)) by (rewrite Hw; reflexivity).
     pose proof (write_manifests_at roots 0 roots DS pl f1 j r (proj2 (proj2 HD)) Hn) as Hat.
     rewrite E2 in Hat. simpl in Hat.
-    destruct (exists_at f1 (mf_path r) || negb (is_nil (per_root roots DS j r)) || root_had_changes roots pl j) eqn:Ec.
-    + destruct (write_manifests_records roots 0 roots DS pl f1 j r (proj2 (proj2 HD)) Hn (or_intror Ec) Ec) as [c (H1 & H2 & H3 & H4)].
+    destruct (should_write f1 roots DS pl j r) eqn:Ec.
+    + destruct (write_manifests_records roots 0 roots DS pl f1 j r (proj2 (proj2 HD)) Hn Ec) as [c (H1 & H2 & H3 & H4)].
       rewrite E2 in H1. simpl in H1. exists c. split; [exact H1|]. split; [exact H2|]. rewrite H4, Hfin, Hat. reflexivity.
-    + exfalso. apply (Hall r Hr). rewrite Hfin, Hat.
-      apply orb_false_iff in Ec as [Ec _]. apply orb_false_iff in Ec as [Ec _]. unfold exists_at in Ec.
+    + exfalso. apply (Hall r Hr). rewrite Hfin, Hat. unfold should_write in Ec.
+      apply orb_false_iff in Ec as [Ec _]. apply orb_false_iff in Ec as [Ec _]. apply orb_false_iff in Ec as [Ec _]. unfold exists_at in Ec.
       destruct (f1 (mf_path r)); [discriminate|reflexivity].
   - intros c Hc. assert (Hin : In (a_path c) (map mf_path sub)) by (rewrite <- Hs1; apply in_map; exact Hc).
     apply in_map_iff in Hin as [r [E Hr]]. exists r. split; [apply Hs2; exact Hr|auto].
